@@ -1277,6 +1277,89 @@ def check_reuse_sources(case):
                 + (["shifted-grid"] if any(r["shift"] for r in case["runs"]) else []))
 
 
+# ------------------------------------------------------------------ find_event / events_iterator
+
+
+@st.composite
+def find_case(draw, shard, tier):
+    case = draw(stream_case(shard, tier, nmin=1, nmax=3, props=("kepler", "kepler", "sgp4", "ephem")))
+    case["ephem_native"] = False
+    case["n"] = min(case["n"], 120)
+    case["queries"] = [dict(kind=draw(st.sampled_from(["iterator", "iterator", "find", "find", "find_twice", "find_event_object",
+                                                        "find_in_list"])),
+                            pick=draw(st.integers(0, 5)), pick2=draw(st.integers(0, 5)), offset=draw(st.integers(0, 4)),
+                            nnames=draw(st.integers(0, 2)), absent=draw(st.integers(0, 5)) == 0)
+                       for _ in range(draw(st.integers(2, 4)))]
+    return case
+
+
+def _ev(o, start):
+    d = o.date - start
+    return ((d.days * 86400 + d.seconds) * US + d.microseconds, str(o.event.info))
+
+
+def check_find(case):
+    from beyond.propagators.listeners import events_iterator, find_event
+
+    what = describe(case)
+    source, native = make_source(case)
+    specs, listeners = make_listeners(case)
+    start, stop, step = grid(case)
+    # the full stream: everything that carries an event, in stream order (exactly what the helpers filter)
+    full = [(it.us, it.label) for it in run_stream(source, case, listeners) if it.label is not None]
+    names = sorted({lab for _, lab in full})
+
+    def fresh_iter():
+        src, _ = make_source(case)
+        return src.iter(start=start, stop=stop, step=step, listeners=list(listeners))
+
+    nt = False
+    for q in case["queries"]:
+        pool = names + ["No Such Event"]
+        chosen = [] if q["nnames"] == 0 else [pool[(q["pick"] + k * (q["pick2"] + 1)) % len(pool)] for k in range(q["nnames"])]
+        if q["absent"]:
+            chosen = ["No Such Event"]
+        if q["kind"] == "iterator":
+            want = [e for e in full if not chosen or e[1] in chosen]
+            got = [_ev(o, start) for o in events_iterator(fresh_iter(), *chosen)]
+            if got != want:
+                raise Violation("events-iterator", f"{what}: events_iterator(..., {chosen}) yields {len(got)} events {got[:3]}, the "
+                                                   f"stream holds {len(want)} such events {want[:3]}")
+            nt = nt or bool(want)
+            continue
+        name = chosen[0] if chosen else pool[q["pick"] % len(pool)]
+        occ = [e for e in full if e[1] == name]
+        k = q["offset"]
+        it = fresh_iter()
+        if q["kind"] == "find_in_list":
+            it = list(it)
+        arg = name
+        if q["kind"] == "find_event_object" and occ:
+            # an Event instance instead of its text
+            arg = next(o for o in fresh_iter() if o.event is not None and str(o.event.info) == name).event
+        try:
+            got = _ev(find_event(it, arg, offset=k), start)
+        except RuntimeError:
+            got = None
+        want = occ[k] if k < len(occ) else None
+        if got != want:
+            raise Violation("find-event", f"{what}: find_event(..., {name!r}, offset={k}) gives {got}, the stream's occurrence "
+                                          f"#{k} of that event is {want} ({len(occ)} occurrences)")
+        nt = nt or want is not None
+        if q["kind"] == "find_twice" and not isinstance(it, list):
+            # a second call on the SAME iterator goes on behind the first result
+            try:
+                got2 = _ev(find_event(it, name), start)
+            except RuntimeError:
+                got2 = None
+            want2 = occ[k + 1] if (want is not None and k + 1 < len(occ)) else None
+            if got2 != want2:
+                raise Violation("find-event-second-call", f"{what}: second find_event(..., {name!r}) on the same iterator gives "
+                                                          f"{got2}, the stream continues with {want2}")
+    stats = dict(events=len(full), multi=False, skipped=0)
+    return dict(nt=nt, cls=classes_of(case, stats) + sorted({f"q:{q['kind']}" for q in case["queries"]}))
+
+
 # ------------------------------------------------------------------ facets
 
 FACETS = [
@@ -1307,6 +1390,8 @@ FACETS = [
     Facet("reuse_other_trajectory", reuse_sources_case, check_reuse_sources, setup=setup, shrink_quick=False,
           rule="the same listener objects served at least two different trajectories and at least one event occurred",
           quick=(8, 2), thorough=(32, 8)),
+    Facet("find_event", find_case, check_find, setup=setup, shrink_quick=False,
+          rule="at least one query that has an answer in the stream", quick=(6, 5), thorough=(16, 40)),
     Facet("reuse", reuse_case, check_reuse, setup=setup, shrink_quick=False,
           rule="at least one event over the history", quick=(4, 4), thorough=(16, 25)),
 ]
